@@ -1606,10 +1606,12 @@ var ruleLimitSlice = &core.Rule{ID: "R04.1", Min: 5,
 		for _, cs := range cases {
 			key := "order type " + cs.name
 			var arg ssa.Value
+			var lastEv *fde.Eval
 			inV, limV := ssa.Value(in), ssa.Value(lim)
 			if cutFn != nil {
 				inV, limV = hIn, hLim
 				ev := newEval(c)
+				lastEv = ev
 				ev.Env = fde.Env{hLim: constant.MakeInt64(cs.l)}
 				for _, l := range lenCallsOf(cutFn, hIn) {
 					ev.Env[l] = constant.MakeInt64(cs.n)
@@ -1629,6 +1631,7 @@ var ruleLimitSlice = &core.Rule{ID: "R04.1", Min: 5,
 				}
 			} else {
 				ev := newEval(c)
+				lastEv = ev
 				ev.Env = fde.Env{lim: constant.MakeInt64(cs.l)}
 				for _, l := range lens {
 					ev.Env[l] = constant.MakeInt64(cs.n)
@@ -1655,6 +1658,17 @@ var ruleLimitSlice = &core.Rule{ID: "R04.1", Min: 5,
 					h = cv.X
 				}
 				cut = h == limV
+				// or a bound computed from both (min(len(in), limit)): judged by its value in this order type
+				if !cut && lastEv != nil && orderOnly(sl.High, inV, limV) {
+					if hv, ok := lastEv.Val(sl.High); ok && hv.Kind() == constant.Int {
+						k, _ := constant.Int64Val(hv)
+						if k == cs.n {
+							whole = true // in[:len(in)]
+						} else if k == cs.l && cs.l < cs.n && mentionsValue(sl.High, limV) {
+							cut = true
+						}
+					}
+				}
 			}
 			switch {
 			case cs.wantWhole:
@@ -1674,6 +1688,62 @@ type nodeCopy struct {
 	ps    ssa.Value  // the parameter map applied to the type string (nil: none)
 	alloc *ssa.Alloc // in-place form
 	fn    *ssa.Function
+}
+
+// orderOnly: v is built from len(in) and lim by conversions and the builtins
+// min / max alone: its value in an order type of (len, lim) is one of the two,
+// chosen by comparisons, so the tabulation over order types is exact for it.
+func orderOnly(v, in, lim ssa.Value) bool {
+	switch x := v.(type) {
+	case *ssa.Convert:
+		return orderOnly(x.X, in, lim)
+	case *ssa.ChangeType:
+		return orderOnly(x.X, in, lim)
+	case *ssa.Call:
+		if core.IsBuiltin(&x.Call, "len") {
+			return x.Call.Args[0] == in
+		}
+		if b, ok := x.Call.Value.(*ssa.Builtin); ok && (b.Name() == "min" || b.Name() == "max") {
+			for _, a := range x.Call.Args {
+				if !orderOnly(a, in, lim) {
+					return false
+				}
+			}
+			return true
+		}
+	}
+	return v == lim
+}
+
+// mentionsValue: v is computed (through conversions, arithmetic, min/max) from w.
+func mentionsValue(v, w ssa.Value) bool {
+	seen := map[ssa.Value]bool{}
+	var rec func(x ssa.Value) bool
+	rec = func(x ssa.Value) bool {
+		if x == w {
+			return true
+		}
+		if x == nil || seen[x] {
+			return false
+		}
+		seen[x] = true
+		in, ok := x.(ssa.Instruction)
+		if !ok {
+			return false
+		}
+		switch x.(type) {
+		case *ssa.Convert, *ssa.BinOp, *ssa.Call, *ssa.Phi, *ssa.ChangeType:
+		default:
+			return false
+		}
+		for _, op := range in.Operands(nil) {
+			if *op != nil && rec(*op) {
+				return true
+			}
+		}
+		return false
+	}
+	return rec(v)
 }
 
 // isClone: g is one of the single-node copy functions.
